@@ -21,6 +21,8 @@
 //	              folds, quasiquote, apply/compose chains, recursion through builtins ...)
 //	L0            every registered callable x every arity 0..max+1 x argument tuples over V0
 //	RAW           every special operator / macro x raw FORM tuples over F0
+//	NUM           every callable x every arity x every set of <= 3 positions x every assignment
+//	              of the numeric edge alphabet N (int/float representation boundaries) to them
 //	V1, V2        the value closure: one representative per (producing callable, result kind) of
 //	              the previous level, in every position of every callable
 //	sink-cyclic   every self-containing container x every callable x every position
@@ -166,6 +168,15 @@ func run(r *core.Run) {
 	}
 	r.Bound("V1_size", len(v1))
 	run1("RAW", auxData{}, "")
+	// (d') numeric edge tuples: up to three positions at once over N
+	r.Bound("N_numeric_edge_alphabet", numAlphabet(thorough))
+	r.Bound("N_positions_at_once", "arity<=3: 3, arity 4-5: 2, above: 1 (thorough: arity<=4: 3, arity 5-6: 2, above: 1)")
+	r.Bound("limits_num", "the sweep limits with MaxAlloc 1000 and MaxSteps 20000 (NUM); the sweep limits unchanged (NUM-wide: thorough only, over the quick tier's alphabet and position sets)")
+	r.Bound("watchdog_num", fmt.Sprintf("%d CPU-seconds per batch of 128 calls", numWatchCPU))
+	run1("NUM", auxData{}, "")
+	if thorough {
+		run1("NUM-wide", auxData{}, "")
+	}
 	// (d) level 1 and level 2 of the value closure
 	var v2, v2kinds []string
 	if len(v1) > 0 {
@@ -261,7 +272,10 @@ func run(r *core.Run) {
 	}
 	r.AddTraces(0)
 	r.Rule("non-trivial = a text at least one reader accepts (text spaces), or a call that got past argument binding, i.e. produced a value or an error not raised by the binder (call spaces). " +
-		"Distinct by exact text for the text spaces and by (callable, stratum, outcome class) for the call sweeps, whose tuples are distinct by construction (disjoint strata); the per-space non-trivial execution counts are in coverage.spaces")
+		"Distinct by exact text for the text spaces and by (callable, stratum, outcome class) for the call sweeps, whose tuples are distinct by construction (disjoint strata); the per-space non-trivial execution counts are in coverage.spaces. " +
+		"The NUM family applies every registered callable to every tuple in which up to three argument positions at once hold a member of the numeric edge alphabet N " +
+		"(the int and float representation boundaries: 0, +-1, -0.0, MaxInt64, MinInt64, 2^53 and its neighbours as int and as float, 2^63 as float, 0.5, the smallest positive float, 1e308, NaN, +-Inf), " +
+		"the other positions at their formal-aware default, under a per-operation allocation limit of 1000 and a step budget of 20000; non-trivial there = the call got past argument binding")
 	r.Assume("limits are configured as the repository's own harnesses configure them (fuzz profile for text and depth spaces, sweep profile for the registry sweeps) plus WithMaxSleep(1ms); no wall-clock context deadline is set, so every verdict depends on counts only")
 	r.Assume("time:sleep is NOT skipped: the host ceiling WithMaxSleep(1ms) bounds it; load-file/load-string/load-bytes are NOT skipped: the runtime's source library is an in-memory one that serves a one-form program under the name \"x\" and nothing else; testing:* operators are not skipped (they only register tests)")
 	r.Assume("a call's arguments are source expressions evaluated by the real evaluator; host-only values (natives, multi-dimensional arrays, containers holding error values) come from the host builtin (c03-host id); a bare error VALUE cannot be passed to a function (the evaluator raises it), so errors only occur inside containers")
